@@ -1,7 +1,1239 @@
-//! part of the `enc.*` family (stub; filled in by the owner).
+//! `enc.<type>.*` operations of the link / ARP / transport half of C08
+//! (same line formats as lean/EpModel/Driver/EncLink.lean).
 #![allow(unused_imports, dead_code)]
 use crate::util::*;
+use etherparse::err::LenError;
+use etherparse::*;
 
-pub fn run(_op: &str, _a: &[&str]) -> Option<String> {
-    None
+// ---------------------------------------------------------------------------------------------
+// argument parsing
+
+fn hex_n<const N: usize>(s: &str) -> Option<[u8; N]> {
+    hex(s)?.try_into().ok()
+}
+fn boolean(s: &str) -> Option<bool> {
+    match s {
+        "1" => Some(true),
+        "0" => Some(false),
+        _ => None,
+    }
+}
+fn list(s: &str) -> Vec<&str> {
+    if s == "-" {
+        Vec::new()
+    } else {
+        s.split(',').collect()
+    }
+}
+fn sb(b: bool) -> &'static str {
+    if b {
+        "1"
+    } else {
+        "0"
+    }
+}
+
+// ---------------------------------------------------------------------------------------------
+// error rendering
+
+fn len_err(e: &LenError) -> String {
+    format!(
+        "err(len(req={},len={},src={:?},layer={:?},off={}))",
+        e.required_len, e.len, e.len_source, e.layer, e.layer_start_offset
+    )
+}
+fn too_big<T: core::fmt::Display + Sized + Clone + core::fmt::Debug + Eq + core::hash::Hash>(
+    e: &err::ValueTooBigError<T>,
+) -> String {
+    format!(
+        "err(toobig(actual={},max={},vt={:?}))",
+        e.actual, e.max_allowed, e.value_type
+    )
+}
+fn space_err(e: &err::SliceWriteSpaceError) -> String {
+    format!(
+        "err(space(req={},len={},layer={:?},off={}))",
+        e.required_len, e.len, e.layer, e.layer_start_offset
+    )
+}
+fn sll_content(e: &err::linux_sll::HeaderError) -> String {
+    use err::linux_sll::HeaderError::*;
+    match e {
+        UnsupportedPacketTypeField { packet_type } => format!(
+            "err(content(UnsupportedPacketTypeField(packet_type={})))",
+            packet_type
+        ),
+        UnsupportedArpHardwareId { arp_hardware_type } => format!(
+            "err(content(UnsupportedArpHardwareId(arp_hardware_type={})))",
+            arp_hardware_type.0
+        ),
+    }
+}
+
+// ---------------------------------------------------------------------------------------------
+// generic result lines
+
+/// decoded value: canonical field text + the unused rest of the input
+type Dec<'a> = Result<(String, &'a [u8]), String>;
+
+fn dec_str(base: &[u8], d: Dec) -> String {
+    match d {
+        Err(e) => e,
+        Ok((f, rest)) => format!("ok({},rest={})", f, win(base, rest)),
+    }
+}
+
+/// the `to_bytes` line
+fn enc_line(
+    b: &[u8],
+    w: Option<Vec<u8>>,
+    s: Option<String>,
+    header_len: usize,
+    tail: &[u8],
+    from_slice: &dyn for<'a> Fn(&'a [u8]) -> Dec<'a>,
+) -> String {
+    let ws = match w {
+        None => "na".to_string(),
+        Some(v) => {
+            if v == b {
+                "same".to_string()
+            } else {
+                to_hex(&v)
+            }
+        }
+    };
+    let ss = s.unwrap_or_else(|| "na".to_string());
+    let mut all = b.to_vec();
+    all.extend_from_slice(tail);
+    format!(
+        "ok(b={},w={},s={},len={},dec={})",
+        to_hex(b),
+        ws,
+        ss,
+        header_len,
+        dec_str(&all, from_slice(&all))
+    )
+}
+
+/// result of write_to_slice into a buffer of exactly header_len bytes, relative to `b`
+fn exact_slice(
+    b: &[u8],
+    header_len: usize,
+    f: &dyn Fn(&mut [u8]) -> Result<usize, String>,
+) -> String {
+    let mut buf = vec![0xA5u8; header_len];
+    match f(&mut buf) {
+        Err(e) => e,
+        Ok(rest_len) => {
+            let written = &buf[..header_len - rest_len];
+            if written == b && rest_len == 0 {
+                "same".to_string()
+            } else {
+                format!("{}+{}", to_hex(written), rest_len)
+            }
+        }
+    }
+}
+
+fn wslice_line(cap: usize, f: &dyn Fn(&mut [u8]) -> Result<usize, String>) -> String {
+    let mut buf = vec![0xA5u8; cap];
+    match f(&mut buf) {
+        Err(e) => e,
+        Ok(rest_len) => format!(
+            "ok(written={},rest={})",
+            to_hex(&buf[..cap - rest_len]),
+            rest_len
+        ),
+    }
+}
+
+/// the `from_slice` line: decode, re-encode, decode again
+fn from_line(
+    b: &[u8],
+    from_slice: &dyn for<'a> Fn(&'a [u8]) -> Result<(String, Vec<u8>, &'a [u8]), String>,
+) -> String {
+    match from_slice(b) {
+        Err(e) => e,
+        Ok((fields, re, rest)) => {
+            let first = format!("{},rest={}", fields, win(b, rest));
+            let mut b2 = re.clone();
+            b2.extend_from_slice(rest);
+            let again = match from_slice(&b2) {
+                Err(e) => e,
+                Ok((f2, _, rest2)) => {
+                    let s2 = format!("{},rest={}", f2, win(&b2, rest2));
+                    if s2 == first {
+                        "same".to_string()
+                    } else {
+                        format!("ok({})", s2)
+                    }
+                }
+            };
+            format!("ok({},re={},again={})", first, to_hex(&re), again)
+        }
+    }
+}
+
+fn split_last<'a, 'b>(a: &'a [&'b str]) -> Option<(&'a [&'b str], &'b str)> {
+    let (l, r) = a.split_last()?;
+    Some((r, *l))
+}
+
+// ---------------------------------------------------------------------------------------------
+// Ethernet II
+
+fn show_eth2(h: &Ethernet2Header) -> String {
+    format!(
+        "dst={},src={},et={}",
+        to_hex(&h.destination),
+        to_hex(&h.source),
+        h.ether_type.0
+    )
+}
+fn mk_eth2(a: &[&str]) -> Option<Ethernet2Header> {
+    match a {
+        [d, s, e] => Some(Ethernet2Header {
+            destination: hex_n::<6>(d)?,
+            source: hex_n::<6>(s)?,
+            ether_type: EtherType(num(e)?),
+        }),
+        _ => None,
+    }
+}
+fn dec_eth2(b: &[u8]) -> Dec<'_> {
+    Ethernet2Header::from_slice(b)
+        .map(|(h, r)| (show_eth2(&h), r))
+        .map_err(|e| len_err(&e))
+}
+
+// ---------------------------------------------------------------------------------------------
+// VLAN
+
+fn show_vlan(h: &SingleVlanHeader) -> String {
+    format!(
+        "pcp={},dei={},vid={},et={}",
+        h.pcp.value(),
+        sb(h.drop_eligible_indicator),
+        h.vlan_id.value(),
+        h.ether_type.0
+    )
+}
+fn mk_vlan(a: &[&str]) -> Option<Result<SingleVlanHeader, String>> {
+    match a {
+        [p, d, v, e] => {
+            let p: u8 = num(p)?;
+            let d = boolean(d)?;
+            let v: u16 = num(v)?;
+            let e: u16 = num(e)?;
+            Some((|| {
+                Ok(SingleVlanHeader {
+                    pcp: VlanPcp::try_new(p).map_err(|e| too_big(&e))?,
+                    drop_eligible_indicator: d,
+                    vlan_id: VlanId::try_new(v).map_err(|e| too_big(&e))?,
+                    ether_type: EtherType(e),
+                })
+            })())
+        }
+        _ => None,
+    }
+}
+fn dec_vlan(b: &[u8]) -> Dec<'_> {
+    SingleVlanHeader::from_slice(b)
+        .map(|(h, r)| (show_vlan(&h), r))
+        .map_err(|e| len_err(&e))
+}
+
+// ---------------------------------------------------------------------------------------------
+// Linux SLL
+
+fn show_sll(h: &LinuxSllHeader) -> String {
+    let p = match h.protocol_type {
+        LinuxSllProtocolType::Ignored(v) => format!("ign({})", v),
+        LinuxSllProtocolType::NetlinkProtocolType(v) => format!("netlink({})", v),
+        LinuxSllProtocolType::GenericRoutingEncapsulationProtocolType(v) => format!("gre({})", v),
+        LinuxSllProtocolType::EtherType(v) => format!("et({})", v.0),
+        LinuxSllProtocolType::LinuxNonstandardEtherType(v) => format!("nonstd({})", u16::from(v)),
+    };
+    format!(
+        "pt={},hrd={},alen={},addr={},proto={}",
+        u16::from(h.packet_type),
+        h.arp_hrd_type.0,
+        h.sender_address_valid_length,
+        to_hex(&h.sender_address),
+        p
+    )
+}
+fn mk_sll(a: &[&str]) -> Option<Result<LinuxSllHeader, String>> {
+    match a {
+        [pt, hrd, alen, addr, tag, v] => {
+            let pt: u16 = num(pt)?;
+            let hrd: u16 = num(hrd)?;
+            let alen: u16 = num(alen)?;
+            let addr = hex_n::<8>(addr)?;
+            let v: u16 = num(v)?;
+            let proto: Result<LinuxSllProtocolType, String> = match *tag {
+                "ign" => Ok(LinuxSllProtocolType::Ignored(v)),
+                "netlink" => Ok(LinuxSllProtocolType::NetlinkProtocolType(v)),
+                "gre" => Ok(LinuxSllProtocolType::GenericRoutingEncapsulationProtocolType(v)),
+                "et" => Ok(LinuxSllProtocolType::EtherType(EtherType(v))),
+                "nonstd" => LinuxNonstandardEtherType::try_from(v)
+                    .map(LinuxSllProtocolType::LinuxNonstandardEtherType)
+                    .map_err(|_| "err(nonstd)".to_string()),
+                _ => return None,
+            };
+            Some((|| {
+                let packet_type = LinuxSllPacketType::try_from(pt).map_err(|e| sll_content(&e))?;
+                let protocol_type = proto?;
+                Ok(LinuxSllHeader {
+                    packet_type,
+                    arp_hrd_type: ArpHardwareId(hrd),
+                    sender_address_valid_length: alen,
+                    sender_address: addr,
+                    protocol_type,
+                })
+            })())
+        }
+        _ => None,
+    }
+}
+fn sll_slice_err(e: err::linux_sll::HeaderSliceError) -> String {
+    match e {
+        err::linux_sll::HeaderSliceError::Len(l) => len_err(&l),
+        err::linux_sll::HeaderSliceError::Content(c) => sll_content(&c),
+    }
+}
+fn dec_sll(b: &[u8]) -> Dec<'_> {
+    LinuxSllHeader::from_slice(b)
+        .map(|(h, r)| (show_sll(&h), r))
+        .map_err(sll_slice_err)
+}
+
+// ---------------------------------------------------------------------------------------------
+// MACsec
+
+fn show_macsec(h: &MacsecHeader) -> String {
+    let p = match h.ptype {
+        MacsecPType::Unmodified(e) => format!("unmod({})", e.0),
+        MacsecPType::Modified => "mod".to_string(),
+        MacsecPType::Encrypted => "enc".to_string(),
+        MacsecPType::EncryptedUnmodified => "encunmod".to_string(),
+    };
+    let sci = match h.sci {
+        None => "none".to_string(),
+        Some(s) => format!("some({})", s),
+    };
+    format!(
+        "ptype={},es={},scb={},an={},sl={},pn={},sci={}",
+        p,
+        sb(h.endstation_id),
+        sb(h.scb),
+        h.an.value(),
+        h.short_len.value(),
+        h.packet_nr,
+        sci
+    )
+}
+fn mk_macsec(a: &[&str]) -> Option<Result<MacsecHeader, String>> {
+    match a {
+        [p, et, es, scb, an, sl, pn, sci] => {
+            let et: u16 = num(et)?;
+            let ptype = match *p {
+                "unmod" => MacsecPType::Unmodified(EtherType(et)),
+                "mod" => MacsecPType::Modified,
+                "enc" => MacsecPType::Encrypted,
+                "encunmod" => MacsecPType::EncryptedUnmodified,
+                _ => return None,
+            };
+            let sci: Option<u64> = if *sci == "none" {
+                None
+            } else {
+                Some(num(sci)?)
+            };
+            let es = boolean(es)?;
+            let scb = boolean(scb)?;
+            let an: u8 = num(an)?;
+            let sl: u8 = num(sl)?;
+            let pn: u32 = num(pn)?;
+            Some((|| {
+                Ok(MacsecHeader {
+                    ptype,
+                    endstation_id: es,
+                    scb,
+                    an: MacsecAn::try_new(an).map_err(|e| too_big(&e))?,
+                    short_len: MacsecShortLen::try_from_u8(sl).map_err(|e| too_big(&e))?,
+                    packet_nr: pn,
+                    sci,
+                })
+            })())
+        }
+        _ => None,
+    }
+}
+fn macsec_from(b: &[u8]) -> Result<(MacsecHeader, &[u8]), String> {
+    match MacsecHeader::from_slice(b) {
+        Ok(h) => {
+            // the crate returns only the header; the rest is slice[header_len..]
+            let l = h.header_len();
+            Ok((h, &b[l..]))
+        }
+        Err(err::macsec::HeaderSliceError::Len(l)) => Err(len_err(&l)),
+        Err(err::macsec::HeaderSliceError::Content(c)) => Err(format!("err(content({:?}))", c)),
+    }
+}
+fn dec_macsec(b: &[u8]) -> Dec<'_> {
+    macsec_from(b).map(|(h, r)| (show_macsec(&h), r))
+}
+
+// ---------------------------------------------------------------------------------------------
+// ARP
+
+fn show_arp(h: &ArpPacket) -> String {
+    format!(
+        "hw={},proto={},op={},hs={},ps={},shw={},sp={},thw={},tp={}",
+        h.hw_addr_type.0,
+        h.proto_addr_type.0,
+        h.operation.0,
+        h.hw_addr_size(),
+        h.protocol_addr_size(),
+        to_hex(h.sender_hw_addr()),
+        to_hex(h.sender_protocol_addr()),
+        to_hex(h.target_hw_addr()),
+        to_hex(h.target_protocol_addr())
+    )
+}
+fn mk_arp(a: &[&str]) -> Option<Result<ArpPacket, String>> {
+    match a {
+        [hw, pr, op, s1, s2, t1, t2] => {
+            let hw: u16 = num(hw)?;
+            let pr: u16 = num(pr)?;
+            let op: u16 = num(op)?;
+            let (s1, s2, t1, t2) = (hex(s1)?, hex(s2)?, hex(t1)?, hex(t2)?);
+            Some(
+                ArpPacket::new(
+                    ArpHardwareId(hw),
+                    EtherType(pr),
+                    ArpOperation(op),
+                    &s1,
+                    &s2,
+                    &t1,
+                    &t2,
+                )
+                .map_err(|e| {
+                    use err::arp::*;
+                    match e {
+                        ArpNewError::HwAddr(ArpHwAddrError::LenNonMatching(a, b)) => {
+                            format!("err(arpnew(HwAddr(LenNonMatching({},{}))))", a, b)
+                        }
+                        ArpNewError::HwAddr(ArpHwAddrError::LenTooBig(a)) => {
+                            format!("err(arpnew(HwAddr(LenTooBig({}))))", a)
+                        }
+                        ArpNewError::ProtoAddr(ArpProtoAddrError::LenNonMatching(a, b)) => {
+                            format!("err(arpnew(ProtoAddr(LenNonMatching({},{}))))", a, b)
+                        }
+                        ArpNewError::ProtoAddr(ArpProtoAddrError::LenTooBig(a)) => {
+                            format!("err(arpnew(ProtoAddr(LenTooBig({}))))", a)
+                        }
+                    }
+                }),
+            )
+        }
+        _ => None,
+    }
+}
+fn arp_from(b: &[u8]) -> Result<(ArpPacket, &[u8]), String> {
+    match ArpPacket::from_slice(b) {
+        Ok(h) => {
+            let l = h.packet_len();
+            Ok((h, &b[l..]))
+        }
+        Err(e) => Err(len_err(&e)),
+    }
+}
+fn dec_arp(b: &[u8]) -> Dec<'_> {
+    arp_from(b).map(|(h, r)| (show_arp(&h), r))
+}
+
+fn show_arpeth(h: &ArpEthIpv4Packet) -> String {
+    format!(
+        "op={},smac={},sip={},tmac={},tip={}",
+        h.operation.0,
+        to_hex(&h.sender_mac),
+        to_hex(&h.sender_ipv4),
+        to_hex(&h.target_mac),
+        to_hex(&h.target_ipv4)
+    )
+}
+fn mk_arpeth(a: &[&str]) -> Option<ArpEthIpv4Packet> {
+    match a {
+        [op, a1, a2, a3, a4] => Some(ArpEthIpv4Packet {
+            operation: ArpOperation(num(op)?),
+            sender_mac: hex_n::<6>(a1)?,
+            sender_ipv4: hex_n::<4>(a2)?,
+            target_mac: hex_n::<6>(a3)?,
+            target_ipv4: hex_n::<4>(a4)?,
+        }),
+        _ => None,
+    }
+}
+fn arpeth_from(b: &[u8]) -> Result<(ArpEthIpv4Packet, &[u8]), String> {
+    let (a, rest) = arp_from(b)?;
+    use err::arp::ArpEthIpv4FromError::*;
+    match a.try_eth_ipv4() {
+        Ok(h) => Ok((h, rest)),
+        Err(NonMatchingHwType(t)) => Err(format!("err(eth4(NonMatchingHwType({})))", t.0)),
+        Err(NonMatchingProtocolType(t)) => {
+            Err(format!("err(eth4(NonMatchingProtocolType({})))", t.0))
+        }
+        Err(NonMatchingHwAddrSize(t)) => Err(format!("err(eth4(NonMatchingHwAddrSize({})))", t)),
+        Err(NonMatchingProtoAddrSize(t)) => {
+            Err(format!("err(eth4(NonMatchingProtoAddrSize({})))", t))
+        }
+    }
+}
+fn dec_arpeth(b: &[u8]) -> Dec<'_> {
+    arpeth_from(b).map(|(h, r)| (show_arpeth(&h), r))
+}
+
+// ---------------------------------------------------------------------------------------------
+// UDP / TCP
+
+fn show_udp(h: &UdpHeader) -> String {
+    format!(
+        "sp={},dp={},len={},ck={}",
+        h.source_port, h.destination_port, h.length, h.checksum
+    )
+}
+fn mk_udp(a: &[&str]) -> Option<UdpHeader> {
+    match a {
+        [s, d, l, c] => Some(UdpHeader {
+            source_port: num(s)?,
+            destination_port: num(d)?,
+            length: num(l)?,
+            checksum: num(c)?,
+        }),
+        _ => None,
+    }
+}
+fn dec_udp(b: &[u8]) -> Dec<'_> {
+    UdpHeader::from_slice(b)
+        .map(|(h, r)| (show_udp(&h), r))
+        .map_err(|e| len_err(&e))
+}
+
+fn show_tcp(h: &TcpHeader) -> String {
+    let fl: String = [
+        h.ns, h.fin, h.syn, h.rst, h.psh, h.ack, h.urg, h.ece, h.cwr,
+    ]
+    .iter()
+    .map(|b| sb(*b))
+    .collect();
+    format!(
+        "sp={},dp={},seq={},ack={},fl={},win={},ck={},urg={},doff={},opts={}",
+        h.source_port,
+        h.destination_port,
+        h.sequence_number,
+        h.acknowledgment_number,
+        fl,
+        h.window_size,
+        h.checksum,
+        h.urgent_pointer,
+        h.data_offset(),
+        to_hex(h.options.as_slice())
+    )
+}
+fn mk_tcp(a: &[&str]) -> Option<Result<TcpHeader, String>> {
+    match a {
+        [sp, dp, seq, ack, fl, win, ck, urg, opts] => {
+            let mut h = TcpHeader::new(num(sp)?, num(dp)?, num(seq)?, num(win)?);
+            h.acknowledgment_number = num(ack)?;
+            h.checksum = num(ck)?;
+            h.urgent_pointer = num(urg)?;
+            let opts = hex(opts)?;
+            if fl.len() != 9 {
+                return None;
+            }
+            let mut bits = [false; 9];
+            for (i, c) in fl.chars().enumerate() {
+                bits[i] = match c {
+                    '1' => true,
+                    '0' => false,
+                    _ => return None,
+                };
+            }
+            h.ns = bits[0];
+            h.fin = bits[1];
+            h.syn = bits[2];
+            h.rst = bits[3];
+            h.psh = bits[4];
+            h.ack = bits[5];
+            h.urg = bits[6];
+            h.ece = bits[7];
+            h.cwr = bits[8];
+            Some(match h.set_options_raw(&opts) {
+                Ok(()) => Ok(h),
+                Err(TcpOptionWriteError::NotEnoughSpace(n)) => {
+                    Err(format!("err(NotEnoughSpace({}))", n))
+                }
+            })
+        }
+        _ => None,
+    }
+}
+fn tcp_err(e: err::tcp::HeaderSliceError) -> String {
+    match e {
+        err::tcp::HeaderSliceError::Len(l) => len_err(&l),
+        err::tcp::HeaderSliceError::Content(err::tcp::HeaderError::DataOffsetTooSmall {
+            data_offset,
+        }) => format!(
+            "err(content(DataOffsetTooSmall(data_offset={})))",
+            data_offset
+        ),
+    }
+}
+fn dec_tcp(b: &[u8]) -> Dec<'_> {
+    TcpHeader::from_slice(b)
+        .map(|(h, r)| (show_tcp(&h), r))
+        .map_err(tcp_err)
+}
+
+// ---------------------------------------------------------------------------------------------
+// ICMPv4
+
+fn show_icmpv4(h: &Icmpv4Header) -> String {
+    use icmpv4::*;
+    use Icmpv4Type::*;
+    let t = match &h.icmp_type {
+        Unknown {
+            type_u8,
+            code_u8,
+            bytes5to8,
+        } => format!("unknown({},{},{})", type_u8, code_u8, to_hex(bytes5to8)),
+        EchoReply(e) => format!("echoreply({},{})", e.id, e.seq),
+        DestinationUnreachable(d) => {
+            let mtu = match d {
+                DestUnreachableHeader::FragmentationNeeded { next_hop_mtu } => *next_hop_mtu,
+                _ => 0,
+            };
+            format!("du({},{})", d.code_u8(), mtu)
+        }
+        Redirect(r) => format!(
+            "redirect({},{})",
+            r.code.code_u8(),
+            to_hex(&r.gateway_internet_address)
+        ),
+        EchoRequest(e) => format!("echoreq({},{})", e.id, e.seq),
+        TimeExceeded(c) => format!("te({})", c.code_u8()),
+        ParameterProblem(p) => match p {
+            ParameterProblemHeader::PointerIndicatesError(x) => format!("pp(0,{})", x),
+            ParameterProblemHeader::MissingRequiredOption => "pp(1,0)".to_string(),
+            ParameterProblemHeader::BadLength => "pp(2,0)".to_string(),
+        },
+        TimestampRequest(m) => format!(
+            "tsreq({},{},{},{},{})",
+            m.id, m.seq, m.originate_timestamp, m.receive_timestamp, m.transmit_timestamp
+        ),
+        TimestampReply(m) => format!(
+            "tsreply({},{},{},{},{})",
+            m.id, m.seq, m.originate_timestamp, m.receive_timestamp, m.transmit_timestamp
+        ),
+    };
+    format!("ty={},ck={}", t, h.checksum)
+}
+fn mk_icmpv4(a: &[&str]) -> Option<Result<Icmpv4Header, String>> {
+    use icmpv4::*;
+    match a {
+        [ck, v, args] => {
+            let ck: u16 = num(ck)?;
+            let l = list(args);
+            let bad = || Err("err(code)".to_string());
+            let ty: Result<Icmpv4Type, String> = match (*v, &l[..]) {
+                ("unknown", [t, c, b]) => Ok(Icmpv4Type::Unknown {
+                    type_u8: num(t)?,
+                    code_u8: num(c)?,
+                    bytes5to8: hex_n::<4>(b)?,
+                }),
+                ("echoreply", [i, s]) => Ok(Icmpv4Type::EchoReply(IcmpEchoHeader {
+                    id: num(i)?,
+                    seq: num(s)?,
+                })),
+                ("echoreq", [i, s]) => Ok(Icmpv4Type::EchoRequest(IcmpEchoHeader {
+                    id: num(i)?,
+                    seq: num(s)?,
+                })),
+                ("du", [c, m]) => match DestUnreachableHeader::from_values(num(c)?, num(m)?) {
+                    Some(d) => Ok(Icmpv4Type::DestinationUnreachable(d)),
+                    None => bad(),
+                },
+                ("redirect", [c, g]) => {
+                    let g = hex_n::<4>(g)?;
+                    match RedirectCode::from_u8(num(c)?) {
+                        Some(code) => Ok(Icmpv4Type::Redirect(RedirectHeader {
+                            code,
+                            gateway_internet_address: g,
+                        })),
+                        None => bad(),
+                    }
+                }
+                ("te", [c]) => match TimeExceededCode::from_u8(num(c)?) {
+                    Some(code) => Ok(Icmpv4Type::TimeExceeded(code)),
+                    None => bad(),
+                },
+                ("pp", [c, p]) => match ParameterProblemHeader::from_values(num(c)?, num(p)?) {
+                    Some(x) => Ok(Icmpv4Type::ParameterProblem(x)),
+                    None => bad(),
+                },
+                ("tsreq", [i, s, o, r, t]) => Ok(Icmpv4Type::TimestampRequest(TimestampMessage {
+                    id: num(i)?,
+                    seq: num(s)?,
+                    originate_timestamp: num(o)?,
+                    receive_timestamp: num(r)?,
+                    transmit_timestamp: num(t)?,
+                })),
+                ("tsreply", [i, s, o, r, t]) => Ok(Icmpv4Type::TimestampReply(TimestampMessage {
+                    id: num(i)?,
+                    seq: num(s)?,
+                    originate_timestamp: num(o)?,
+                    receive_timestamp: num(r)?,
+                    transmit_timestamp: num(t)?,
+                })),
+                _ => return None,
+            };
+            Some(ty.map(|icmp_type| Icmpv4Header {
+                icmp_type,
+                checksum: ck,
+            }))
+        }
+        _ => None,
+    }
+}
+fn dec_icmpv4(b: &[u8]) -> Dec<'_> {
+    Icmpv4Header::from_slice(b)
+        .map(|(h, r)| (show_icmpv4(&h), r))
+        .map_err(|e| len_err(&e))
+}
+
+// ---------------------------------------------------------------------------------------------
+// ICMPv6
+
+fn show_icmpv6(h: &Icmpv6Header) -> String {
+    use Icmpv6Type::*;
+    let t = match &h.icmp_type {
+        Unknown {
+            type_u8,
+            code_u8,
+            bytes5to8,
+        } => format!("unknown({},{},{})", type_u8, code_u8, to_hex(bytes5to8)),
+        DestinationUnreachable(c) => format!("du({})", c.code_u8()),
+        PacketTooBig { mtu } => format!("ptb({})", mtu),
+        TimeExceeded(c) => format!("te({})", c.code_u8()),
+        ParameterProblem(p) => format!("pp({},{})", p.code.code_u8(), p.pointer),
+        EchoRequest(e) => format!("echoreq({},{})", e.id, e.seq),
+        EchoReply(e) => format!("echoreply({},{})", e.id, e.seq),
+        RouterSolicitation => "rs".to_string(),
+        RouterAdvertisement(r) => format!(
+            "ra({},{},{},{})",
+            r.cur_hop_limit,
+            sb(r.managed_address_config),
+            sb(r.other_config),
+            r.router_lifetime
+        ),
+        NeighborSolicitation => "ns".to_string(),
+        NeighborAdvertisement(n) => {
+            format!("na({},{},{})", sb(n.router), sb(n.solicited), sb(n.r#override))
+        }
+        Redirect => "redirect".to_string(),
+    };
+    format!("ty={},ck={}", t, h.checksum)
+}
+fn mk_icmpv6(a: &[&str]) -> Option<Result<Icmpv6Header, String>> {
+    use icmpv6::*;
+    match a {
+        [ck, v, args] => {
+            let ck: u16 = num(ck)?;
+            let l = list(args);
+            let bad = || Err("err(code)".to_string());
+            let ty: Result<Icmpv6Type, String> = match (*v, &l[..]) {
+                ("unknown", [t, c, b]) => Ok(Icmpv6Type::Unknown {
+                    type_u8: num(t)?,
+                    code_u8: num(c)?,
+                    bytes5to8: hex_n::<4>(b)?,
+                }),
+                ("du", [c]) => match DestUnreachableCode::from_u8(num(c)?) {
+                    Some(code) => Ok(Icmpv6Type::DestinationUnreachable(code)),
+                    None => bad(),
+                },
+                ("ptb", [m]) => Ok(Icmpv6Type::PacketTooBig { mtu: num(m)? }),
+                ("te", [c]) => match TimeExceededCode::from_u8(num(c)?) {
+                    Some(code) => Ok(Icmpv6Type::TimeExceeded(code)),
+                    None => bad(),
+                },
+                ("pp", [c, p]) => {
+                    let pointer: u32 = num(p)?;
+                    match ParameterProblemCode::from_u8(num(c)?) {
+                        Some(code) => Ok(Icmpv6Type::ParameterProblem(ParameterProblemHeader {
+                            code,
+                            pointer,
+                        })),
+                        None => bad(),
+                    }
+                }
+                ("echoreq", [i, s]) => Ok(Icmpv6Type::EchoRequest(IcmpEchoHeader {
+                    id: num(i)?,
+                    seq: num(s)?,
+                })),
+                ("echoreply", [i, s]) => Ok(Icmpv6Type::EchoReply(IcmpEchoHeader {
+                    id: num(i)?,
+                    seq: num(s)?,
+                })),
+                ("rs", []) => Ok(Icmpv6Type::RouterSolicitation),
+                ("ra", [c, m, o, lt]) => {
+                    Ok(Icmpv6Type::RouterAdvertisement(RouterAdvertisementHeader {
+                        cur_hop_limit: num(c)?,
+                        managed_address_config: boolean(m)?,
+                        other_config: boolean(o)?,
+                        router_lifetime: num(lt)?,
+                    }))
+                }
+                ("ns", []) => Ok(Icmpv6Type::NeighborSolicitation),
+                ("na", [r, s, o]) => {
+                    Ok(Icmpv6Type::NeighborAdvertisement(NeighborAdvertisementHeader {
+                        router: boolean(r)?,
+                        solicited: boolean(s)?,
+                        r#override: boolean(o)?,
+                    }))
+                }
+                ("redirect", []) => Ok(Icmpv6Type::Redirect),
+                _ => return None,
+            };
+            Some(ty.map(|icmp_type| Icmpv6Header {
+                icmp_type,
+                checksum: ck,
+            }))
+        }
+        _ => None,
+    }
+}
+fn dec_icmpv6(b: &[u8]) -> Dec<'_> {
+    Icmpv6Header::from_slice(b)
+        .map(|(h, r)| (show_icmpv6(&h), r))
+        .map_err(|e| len_err(&e))
+}
+
+// ---------------------------------------------------------------------------------------------
+// IGMP
+
+fn show_igmp(h: &IgmpHeader) -> String {
+    use IgmpType::*;
+    let t = match &h.igmp_type {
+        MembershipQuery(t) => format!(
+            "query({},{})",
+            t.max_response_time,
+            to_hex(&t.group_address.octets)
+        ),
+        MembershipQueryWithSources(t) => format!(
+            "querysrc({},{},{},{},{})",
+            t.max_response_code.0,
+            to_hex(&t.group_address.octets),
+            t.raw_byte_8,
+            t.qqic,
+            t.num_of_sources
+        ),
+        MembershipReportV1(t) => format!("reportv1({})", to_hex(&t.group_address.octets)),
+        MembershipReportV2(t) => format!("reportv2({})", to_hex(&t.group_address.octets)),
+        MembershipReportV3(t) => format!("reportv3({},{})", to_hex(&t.flags), t.num_of_records),
+        LeaveGroup(t) => format!("leave({})", to_hex(&t.group_address.octets)),
+        Unknown(t) => format!(
+            "unknown({},{},{})",
+            t.igmp_type,
+            t.raw_byte_1,
+            to_hex(&t.raw_bytes_4_7)
+        ),
+    };
+    format!("ty={},ck={}", t, h.checksum)
+}
+fn mk_igmp(a: &[&str]) -> Option<IgmpHeader> {
+    use igmp::*;
+    match a {
+        [ck, v, args] => {
+            let ck: u16 = num(ck)?;
+            let l = list(args);
+            let ty = match (*v, &l[..]) {
+                ("query", [m, g]) => IgmpType::MembershipQuery(MembershipQueryType {
+                    max_response_time: num(m)?,
+                    group_address: GroupAddress::new(hex_n::<4>(g)?),
+                }),
+                ("querysrc", [m, g, r, q, n]) => {
+                    IgmpType::MembershipQueryWithSources(MembershipQueryWithSourcesHeader {
+                        max_response_code: MaxResponseCode(num(m)?),
+                        group_address: GroupAddress::new(hex_n::<4>(g)?),
+                        raw_byte_8: num(r)?,
+                        qqic: num(q)?,
+                        num_of_sources: num(n)?,
+                    })
+                }
+                ("reportv1", [g]) => IgmpType::MembershipReportV1(MembershipReportV1Type {
+                    group_address: GroupAddress::new(hex_n::<4>(g)?),
+                }),
+                ("reportv2", [g]) => IgmpType::MembershipReportV2(MembershipReportV2Type {
+                    group_address: GroupAddress::new(hex_n::<4>(g)?),
+                }),
+                ("reportv3", [f, n]) => IgmpType::MembershipReportV3(MembershipReportV3Header {
+                    flags: hex_n::<2>(f)?,
+                    num_of_records: num(n)?,
+                }),
+                ("leave", [g]) => IgmpType::LeaveGroup(LeaveGroupType {
+                    group_address: GroupAddress::new(hex_n::<4>(g)?),
+                }),
+                ("unknown", [t, r, raw]) => IgmpType::Unknown(UnknownHeader {
+                    igmp_type: num(t)?,
+                    raw_byte_1: num(r)?,
+                    raw_bytes_4_7: hex_n::<4>(raw)?,
+                }),
+                _ => return None,
+            };
+            Some(IgmpHeader {
+                igmp_type: ty,
+                checksum: ck,
+            })
+        }
+        _ => None,
+    }
+}
+fn dec_igmp(b: &[u8]) -> Dec<'_> {
+    IgmpHeader::from_slice(b)
+        .map(|(h, r)| (show_igmp(&h), r))
+        .map_err(|e| len_err(&e))
+}
+
+fn show_igmprec(h: &igmp::ReportGroupRecordV3Header) -> String {
+    format!(
+        "rt={},aux={},n={},addr={}",
+        h.record_type.0,
+        h.aux_data_len,
+        h.num_of_sources,
+        to_hex(&h.multicast_address)
+    )
+}
+fn mk_igmprec(a: &[&str]) -> Option<igmp::ReportGroupRecordV3Header> {
+    match a {
+        [r, x, n, d] => Some(igmp::ReportGroupRecordV3Header {
+            record_type: igmp::ReportGroupRecordType(num(r)?),
+            aux_data_len: num(x)?,
+            num_of_sources: num(n)?,
+            multicast_address: hex_n::<4>(d)?,
+        }),
+        _ => None,
+    }
+}
+fn dec_igmprec(b: &[u8]) -> Dec<'_> {
+    igmp::ReportGroupRecordV3Header::from_slice(b)
+        .map(|(h, r)| (show_igmprec(&h), r))
+        .map_err(|e| len_err(&e))
+}
+
+// ---------------------------------------------------------------------------------------------
+// dispatch
+
+fn write_vec(f: &dyn Fn(&mut Vec<u8>) -> Result<(), std::io::Error>) -> Option<Vec<u8>> {
+    let mut v = Vec::new();
+    match f(&mut v) {
+        Ok(()) => Some(v),
+        Err(_) => Some(b"io-error".to_vec()),
+    }
+}
+
+macro_rules! from_op {
+    ($a:expr, $from:expr, $show:expr, $tobytes:expr) => {{
+        match $a {
+            [h] => {
+                let b = hex(h)?;
+                Some(from_line(&b, &|s| {
+                    let (h, rest) = $from(s)?;
+                    Ok(($show(&h), $tobytes(&h), rest))
+                }))
+            }
+            _ => None,
+        }
+    }};
+}
+
+pub fn run(op: &str, a: &[&str]) -> Option<String> {
+    match op {
+        "enc.eth2.to_bytes" => {
+            let (f, t) = split_last(a)?;
+            let t = hex(t)?;
+            let h = mk_eth2(f)?;
+            let b = h.to_bytes();
+            let s = exact_slice(&b, h.header_len(), &|buf| {
+                h.write_to_slice(buf)
+                    .map(|r| r.len())
+                    .map_err(|e| space_err(&e))
+            });
+            Some(enc_line(
+                &b,
+                write_vec(&|v| h.write(v)),
+                Some(s),
+                h.header_len(),
+                &t,
+                &dec_eth2,
+            ))
+        }
+        "enc.eth2.from_slice" => from_op!(
+            a,
+            |s| Ethernet2Header::from_slice(s).map_err(|e| len_err(&e)),
+            show_eth2,
+            |h: &Ethernet2Header| h.to_bytes().to_vec()
+        ),
+        "enc.eth2.wslice" => {
+            let (f, c) = split_last(a)?;
+            let c: usize = num(c)?;
+            if c > 1 << 20 {
+                return None;
+            }
+            let h = mk_eth2(f)?;
+            Some(wslice_line(c, &|buf| {
+                h.write_to_slice(buf)
+                    .map(|r| r.len())
+                    .map_err(|e| space_err(&e))
+            }))
+        }
+        "enc.vlan.to_bytes" => {
+            let (f, t) = split_last(a)?;
+            let t = hex(t)?;
+            Some(match mk_vlan(f)? {
+                Err(e) => e,
+                Ok(h) => enc_line(
+                    &h.to_bytes(),
+                    write_vec(&|v| h.write(v)),
+                    None,
+                    h.header_len(),
+                    &t,
+                    &dec_vlan,
+                ),
+            })
+        }
+        "enc.vlan.from_slice" => from_op!(
+            a,
+            |s| SingleVlanHeader::from_slice(s).map_err(|e| len_err(&e)),
+            show_vlan,
+            |h: &SingleVlanHeader| h.to_bytes().to_vec()
+        ),
+        "enc.sll.to_bytes" => {
+            let (f, t) = split_last(a)?;
+            let t = hex(t)?;
+            Some(match mk_sll(f)? {
+                Err(e) => e,
+                Ok(h) => {
+                    let b = h.to_bytes();
+                    let s = exact_slice(&b, h.header_len(), &|buf| {
+                        h.write_to_slice(buf)
+                            .map(|r| r.len())
+                            .map_err(|e| space_err(&e))
+                    });
+                    enc_line(
+                        &b,
+                        write_vec(&|v| h.write(v)),
+                        Some(s),
+                        h.header_len(),
+                        &t,
+                        &dec_sll,
+                    )
+                }
+            })
+        }
+        "enc.sll.from_slice" => from_op!(
+            a,
+            |s| LinuxSllHeader::from_slice(s).map_err(sll_slice_err),
+            show_sll,
+            |h: &LinuxSllHeader| h.to_bytes().to_vec()
+        ),
+        "enc.sll.wslice" => {
+            let (f, c) = split_last(a)?;
+            let c: usize = num(c)?;
+            if c > 1 << 20 {
+                return None;
+            }
+            Some(match mk_sll(f)? {
+                Err(e) => e,
+                Ok(h) => wslice_line(c, &|buf| {
+                    h.write_to_slice(buf)
+                        .map(|r| r.len())
+                        .map_err(|e| space_err(&e))
+                }),
+            })
+        }
+        "enc.macsec.to_bytes" => {
+            let (f, t) = split_last(a)?;
+            let t = hex(t)?;
+            Some(match mk_macsec(f)? {
+                Err(e) => e,
+                Ok(h) => enc_line(
+                    &h.to_bytes(),
+                    write_vec(&|v| h.write(v)),
+                    None,
+                    h.header_len(),
+                    &t,
+                    &dec_macsec,
+                ),
+            })
+        }
+        "enc.macsec.from_slice" => from_op!(a, macsec_from, show_macsec, |h: &MacsecHeader| h
+            .to_bytes()
+            .to_vec()),
+        "enc.arp.to_bytes" => {
+            let (f, t) = split_last(a)?;
+            let t = hex(t)?;
+            Some(match mk_arp(f)? {
+                Err(e) => e,
+                Ok(h) => enc_line(
+                    &h.to_bytes(),
+                    write_vec(&|v| h.write(v)),
+                    None,
+                    h.packet_len(),
+                    &t,
+                    &dec_arp,
+                ),
+            })
+        }
+        "enc.arp.from_slice" => {
+            from_op!(a, arp_from, show_arp, |h: &ArpPacket| h.to_bytes().to_vec())
+        }
+        "enc.arpeth.to_bytes" => {
+            let (f, t) = split_last(a)?;
+            let t = hex(t)?;
+            let h = mk_arpeth(f)?;
+            Some(enc_line(
+                &h.to_bytes(),
+                Some(h.to_arp_packet().to_bytes().to_vec()),
+                None,
+                ArpEthIpv4Packet::LEN,
+                &t,
+                &dec_arpeth,
+            ))
+        }
+        "enc.arpeth.from_slice" => from_op!(a, arpeth_from, show_arpeth, |h: &ArpEthIpv4Packet| h
+            .to_bytes()
+            .to_vec()),
+        "enc.udp.to_bytes" => {
+            let (f, t) = split_last(a)?;
+            let t = hex(t)?;
+            let h = mk_udp(f)?;
+            Some(enc_line(
+                &h.to_bytes(),
+                write_vec(&|v| h.write(v)),
+                None,
+                h.header_len(),
+                &t,
+                &dec_udp,
+            ))
+        }
+        "enc.udp.from_slice" => from_op!(
+            a,
+            |s| UdpHeader::from_slice(s).map_err(|e| len_err(&e)),
+            show_udp,
+            |h: &UdpHeader| h.to_bytes().to_vec()
+        ),
+        "enc.tcp.to_bytes" => {
+            let (f, t) = split_last(a)?;
+            let t = hex(t)?;
+            Some(match mk_tcp(f)? {
+                Err(e) => e,
+                Ok(h) => enc_line(
+                    &h.to_bytes(),
+                    write_vec(&|v| h.write(v)),
+                    None,
+                    h.header_len(),
+                    &t,
+                    &dec_tcp,
+                ),
+            })
+        }
+        "enc.tcp.from_slice" => from_op!(
+            a,
+            |s| TcpHeader::from_slice(s).map_err(tcp_err),
+            show_tcp,
+            |h: &TcpHeader| h.to_bytes().to_vec()
+        ),
+        "enc.icmpv4.to_bytes" => {
+            let (f, t) = split_last(a)?;
+            let t = hex(t)?;
+            Some(match mk_icmpv4(f)? {
+                Err(e) => e,
+                Ok(h) => enc_line(
+                    &h.to_bytes(),
+                    write_vec(&|v| h.write(v)),
+                    None,
+                    h.header_len(),
+                    &t,
+                    &dec_icmpv4,
+                ),
+            })
+        }
+        "enc.icmpv4.from_slice" => from_op!(
+            a,
+            |s| Icmpv4Header::from_slice(s).map_err(|e| len_err(&e)),
+            show_icmpv4,
+            |h: &Icmpv4Header| h.to_bytes().to_vec()
+        ),
+        "enc.icmpv6.to_bytes" => {
+            let (f, t) = split_last(a)?;
+            let t = hex(t)?;
+            Some(match mk_icmpv6(f)? {
+                Err(e) => e,
+                Ok(h) => enc_line(
+                    &h.to_bytes(),
+                    write_vec(&|v| h.write(v)),
+                    None,
+                    h.header_len(),
+                    &t,
+                    &dec_icmpv6,
+                ),
+            })
+        }
+        "enc.icmpv6.from_slice" => from_op!(
+            a,
+            |s| Icmpv6Header::from_slice(s).map_err(|e| len_err(&e)),
+            show_icmpv6,
+            |h: &Icmpv6Header| h.to_bytes().to_vec()
+        ),
+        "enc.igmp.to_bytes" => {
+            let (f, t) = split_last(a)?;
+            let t = hex(t)?;
+            let h = mk_igmp(f)?;
+            Some(enc_line(
+                &h.to_bytes(),
+                None,
+                None,
+                h.header_len(),
+                &t,
+                &dec_igmp,
+            ))
+        }
+        "enc.igmp.from_slice" => from_op!(
+            a,
+            |s| IgmpHeader::from_slice(s).map_err(|e| len_err(&e)),
+            show_igmp,
+            |h: &IgmpHeader| h.to_bytes().to_vec()
+        ),
+        "enc.igmprec.to_bytes" => {
+            let (f, t) = split_last(a)?;
+            let t = hex(t)?;
+            let h = mk_igmprec(f)?;
+            Some(enc_line(
+                &h.to_bytes(),
+                None,
+                None,
+                igmp::ReportGroupRecordV3Header::LEN,
+                &t,
+                &dec_igmprec,
+            ))
+        }
+        "enc.igmprec.from_slice" => from_op!(
+            a,
+            |s| igmp::ReportGroupRecordV3Header::from_slice(s).map_err(|e| len_err(&e)),
+            show_igmprec,
+            |h: &igmp::ReportGroupRecordV3Header| h.to_bytes().to_vec()
+        ),
+        _ => None,
+    }
 }
